@@ -128,7 +128,7 @@ func c12TxName(tx []byte) string { return strings.TrimRight(string(tx), ".") }
 
 type c12Names struct {
 	cfg   c12Cfg
-	keys  []string          // sorted alphabet
+	keys  []string            // sorted alphabet
 	byKey map[[32]byte]string // sha256(tx bytes) -> name
 }
 
@@ -173,7 +173,7 @@ type c12Client struct {
 }
 
 func (c *c12Client) SetResponseCallback(cb abcicli.Callback) { c.cb = cb }
-func (c *c12Client) Error() error                             { return nil }
+func (c *c12Client) Error() error                            { return nil }
 
 func (c *c12Client) CheckTxAsync(req abci.RequestCheckTx) *abcicli.ReqRes {
 	rr := abcicli.NewReqRes(abci.ToRequestCheckTx(req))
@@ -253,15 +253,15 @@ func (a *c12App) CheckTx(req abci.RequestCheckTx) abci.ResponseCheckTx {
 // ---------------------------------------------------------------- the object under test
 
 type c12Sys struct {
-	cfg    c12Cfg
-	mode   string
-	nm     *c12Names
-	mem    *CListMempool
-	cl     *c12Client // async
-	app    *c12App    // sync / conc
-	pre    int64
-	post   int64
-	skips  int
+	cfg   c12Cfg
+	mode  string
+	nm    *c12Names
+	mem   *CListMempool
+	cl    *c12Client // async
+	app   *c12App    // sync / conc
+	pre   int64
+	post  int64
+	skips int
 }
 
 func c12PreFn(limit int64) mempool.PreCheckFunc {
